@@ -736,6 +736,67 @@ def _diverges(b):
     return t.get("k") in ("return", "continue", "break") or t.get("ty") == "!"
 
 
+def may_reach_after(ix, start, target):
+    """may `target` execute after `start` has completed normally, within the same loop iteration / function?  Structured and conservative:
+    walks the statements that follow `start` outwards; a statement that always leaves (continue / break / return / `!`) ends the walk, the exit
+    of an inlined helper (`ireturn`) continues after that helper's block, the end of a loop body ends the walk."""
+    def leaves(n):
+        """how a node always ends: "stop" (continue/break/return/never), ("inl", id) for an unconditional exit of an inlined block, or None"""
+        t = n
+        while True:
+            k = t.get("k")
+            if k in ("blockexpr", "block"):
+                blk = t["b"] if k == "blockexpr" else t
+                if "tail" in blk:
+                    t = blk["tail"]
+                elif blk["stmts"]:
+                    t = blk["stmts"][-1]
+                else:
+                    return None
+            elif k == "semi":
+                t = t["e"]
+            else:
+                break
+        if t.get("k") in ("return", "continue", "break") or t.get("ty") == "!":
+            return "stop"
+        if t.get("k") == "ireturn":
+            return ("inl", t.get("inl"))
+        if t.get("k") == "if" and "else" in t:
+            a, b = leaves(t["then"]), leaves(t["else"])
+            if a == "stop" and b == "stop":
+                return "stop"
+        return None
+
+    def after(n, skip_to_inl=None):
+        p = ix.parent.get(id(n))
+        while p is not None:
+            k = p.get("k")
+            if k in ("while", "for", "loop", "closure") and (p.get("body") is n or contains(p.get("body", {}), n)):
+                return False            # the end of the iteration
+            if k == "block":
+                seq = list(p["stmts"]) + ([p["tail"]] if "tail" in p else [])
+                idx = [i for i, x in enumerate(seq) if x is n or contains(x, n)]
+                if idx and skip_to_inl is None:
+                    for nxt in seq[idx[0] + 1:]:
+                        if nxt is target or contains(nxt, target):
+                            return True
+                        lv = leaves(nxt)
+                        if lv == "stop":
+                            return False
+                        if isinstance(lv, tuple):
+                            skip_to_inl = lv[1]
+                            break
+            if k == "blockexpr" and skip_to_inl is not None and p.get("inl_id") == skip_to_inl:
+                skip_to_inl = None
+            n = p
+            p = ix.parent.get(id(n))
+        return False
+    lv = leaves(start)
+    if lv == "stop":
+        return False
+    return after(start, lv[1] if isinstance(lv, tuple) else None)
+
+
 def _same_pattern_shape(a, b):
     """the two patterns match the same values (identical up to the names of their bindings)"""
     ka, kb = a.get("k"), b.get("k")
